@@ -598,3 +598,150 @@ Proof.
   pose proof (bank_part_debits self _ e e' Hd H (dp_std dp)) as B2.
   rewrite C1 in B1. rewrite C2 in B2. split; lia.
 Qed.
+
+(** ** concrete worlds: non-vacuity and the chain-level witnesses of finding F2 *)
+
+(** six contracts instantiated and wired through the hub's UpdateConfig (which also sets the
+    distribution withdraw address), one bSei bond and one stSei bond; addresses as in Model/Types.v
+    (owner 10, updater 11, keeper 12, users 14 and 15); [rate] is the keeper rate *)
+Definition index_setup (rate : N) : list op :=
+  [ OGift 14 usei 10000000; OGift 15 usei 10000000;
+    OInstHub 10 30 100 5000000000000000 D 11 usei uusd;
+    OInstReward 10 A_hub uusd A_swap [uatom; usei];
+    OInstDisp 10 A_hub A_reward usei uusd 12 rate A_swap A_oracle [uatom; usei; uusd];
+    OInstReg 10 A_hub [0; 1; 2];
+    OInstBsei 10 A_hub [];
+    OInstStsei 10 A_hub 2 [];
+    OTx 10 A_hub (WHub (HConfig (Some A_disp) (Some A_reg) (Some A_bsei) (Some A_stsei)
+                                (Some A_airdrop) (Some A_reward) None)) [];
+    OTx 14 A_hub (WHub HBond) [(usei, 1000000)];
+    OTx 15 A_hub (WHub HBondSt) [(usei, 2000000)] ].
+
+Definition index_world (rate : N) (accruals : list op) : world :=
+  run_ops (index_setup rate ++ accruals) (empty_world 100).
+
+Definition ugi_op : op := OTx 11 A_hub (WHub (HUpdateGlobal 0)) [].
+
+(** 5% keeper, 50000 usei pending at validator 0 and 7000 uusd at validator 1 *)
+Definition W_ok : world := index_world 50000000000000000 [OAccrue 0 usei 50000; OAccrue 1 uusd 7000].
+
+(** the transaction succeeds there (non-vacuity of the success theorem) *)
+Lemma index_success_example : fst (snd (step W_ok ugi_op)) = true.
+Proof. vm_compute. reflexivity. Qed.
+
+(** ... with the end state predicted by the theorem: dispatcher empty, keeper 950 uusd + 1900 usei,
+    reward contract 18050 uusd, 36100 usei re-bonded *)
+Lemma index_success_example_state :
+  let w' := fst (step W_ok ugi_op) in
+  bal (w_env w') A_disp uusd = 0 /\ bal (w_env w') A_disp usei = 0 /\
+  bal (w_env w') 12 uusd = 950 /\ bal (w_env w') 12 usei = 1900 /\
+  bal (w_env w') A_reward uusd = 18050 /\
+  delegated (w_env w') A_hub = delegated (w_env W_ok) A_hub + 36100 /\
+  bal (w_env w') A_hub usei = bal (w_env W_ok) A_hub usei.
+Proof. vm_compute. repeat split. Qed.
+
+(** *** finding F2 at chain level (KNOWN FINDING, genuine defect of execute_dispatch_rewards):
+    the same world with keeper rate 0 — the dispatcher emits a zero-coin bank send and the whole
+    UpdateGlobalIndex fails *)
+Lemma F2_index_witness_zero_rate :
+  let w := index_world 0 [OAccrue 0 usei 50000; OAccrue 1 uusd 7000] in
+  Wired w /\ fst (snd (step w ugi_op)) = false /\ fst (step w ugi_op) = w.
+Proof. cbn zeta. split; [vm_compute; repeat split | split; vm_compute; reflexivity]. Qed.
+
+(** ... and with the 5% keeper rate but dust rewards (10 usei): floor(balance * rate) = 0 *)
+Lemma F2_index_witness_dust :
+  let w := index_world 50000000000000000 [OAccrue 0 usei 10] in
+  Wired w /\ fst (snd (step w ugi_op)) = false /\ fst (step w ugi_op) = w.
+Proof. cbn zeta. split; [vm_compute; repeat split | split; vm_compute; reflexivity]. Qed.
+
+(** ... and with keeper rate 1: the zero-coin send goes to the reward contract *)
+Lemma F2_index_witness_full_rate :
+  let w := index_world D [OAccrue 1 uusd 7000] in
+  Wired w /\ fst (snd (step w ugi_op)) = false.
+Proof. cbn zeta. split; [vm_compute; repeat split | vm_compute; reflexivity]. Qed.
+
+(** in the failing worlds the pre-dispatch balances are in the class [Known_F2] *)
+Lemma F2_index_witness_class :
+  let w := index_world 0 [OAccrue 0 usei 50000; OAccrue 1 uusd 7000] in
+  exists w1, pre_dispatch w 11 = Some w1 /\
+    Known_F2 0 (bal (w_env w1) A_disp uusd) (bal (w_env w1) A_disp usei).
+Proof.
+  cbn zeta. eexists. split; [vm_compute; reflexivity|].
+  left. split; [vm_compute; reflexivity | left; vm_compute; reflexivity].
+Qed.
+
+(** *** every hypothesis of [update_global_index_effect] holds in [W_ok] *)
+Lemma bal_bound_b e B a d :
+  forallb (fun kv : (addr * denom) * N => snd kv <=? B) (e_bank e) = true -> bal e a d <= B.
+Proof.
+  unfold bal, getN. induction (e_bank e) as [|[k v] m IH]; cbn [forallb get snd]; intros H; [lia|].
+  apply andb_true_iff in H. destruct H as [H1 H2]. destruct (eqbNN (a, d) k); [lia | apply IH; exact H2].
+Qed.
+
+Lemma pending_bound_b e B x v d :
+  forallb (fun kv : (addr * (val * denom)) * N => snd kv <=? B) (e_pend e) = true -> pending e x v d <= B.
+Proof.
+  unfold pending, getN. induction (e_pend e) as [|[k y] m IH]; cbn [forallb get snd]; intros H; [lia|].
+  apply andb_true_iff in H. destruct H as [H1 H2]. destruct (eqbAVD (x, (v, d)) k); [lia | apply IH; exact H2].
+Qed.
+
+Lemma pend_total_bound_b e B x vs d :
+  forallb (fun kv : (addr * (val * denom)) * N => snd kv <=? B) (e_pend e) = true ->
+  pend_total e x vs d <= N.of_nat (length vs) * B.
+Proof.
+  intros H. unfold pend_total. induction vs as [|v vs IH]; cbn [map sumN length]; [lia|].
+  pose proof (pending_bound_b e B x v d H). lia.
+Qed.
+
+Definition W_ok_lit : world := Eval vm_compute in W_ok.
+
+Lemma W_ok_eq : W_ok = W_ok_lit.
+Proof. vm_compute. reflexivity. Qed.
+
+Lemma index_nonvacuous :
+  exists w sender h r dp g tb ts w1,
+    Wired w /\ RewardWired w /\ RewardsToDispatcher w /\ IndexWiring w /\ StubsOk (w_env w) /\
+    IndexE1 w /\ RewardSolvent w /\ HubReady w sender /\
+    w_hub w = Some h /\ w_reward w = Some r /\ w_disp w = Some dp /\ w_reg w = Some g /\
+    w_bsei w = Some tb /\ w_stsei w = Some ts /\
+    pre_dispatch w sender = Some w1 /\
+    0 < bal (w_env w1) A_disp (dp_bd dp) <= LIM /\ 0 < bal (w_env w1) A_disp usei <= LIM /\
+    ~ Known_F2 (dp_rate dp) (bal (w_env w1) A_disp (dp_bd dp)) (bal (w_env w1) A_disp usei) /\
+    0 < pend_total (w_env w) A_hub (del_vals (w_env w) A_hub) usei.
+Proof.
+  exists W_ok, 11. rewrite W_ok_eq. unfold W_ok_lit.
+  do 6 eexists. eexists.
+  split. { unfold Wired. cbn. repeat split. }
+  split. { unfold RewardWired. cbn. split; [reflexivity|]. split; [discriminate|]. intros [H|[H|[]]]; discriminate. }
+  split. { vm_compute. reflexivity. }
+  split. { unfold IndexWiring, RegOk. cbn [w_disp w_reg dp_swap dp_oracle dp_rate dp_keeper rg_vals].
+           split; [reflexivity|]. split; [reflexivity|]. split; [apply N.leb_le; vm_compute; reflexivity|].
+           split; [discriminate|]. split; [discriminate|]. split; [discriminate|].
+           split; [discriminate|]. split.
+           - repeat (constructor; [cbn; intros H; repeat (destruct H as [H|H]; [discriminate|]); exact H|]). constructor.
+           - intros v Hv. cbn in Hv. repeat (destruct Hv as [<-|Hv]; [reflexivity|]). contradiction. }
+  split. { unfold StubsOk. cbn [w_env e_swapmode e_oraclemode e_price].
+           split; [reflexivity|]. split; [reflexivity|]. split; [apply N.ltb_lt | apply N.leb_le]; vm_compute; reflexivity. }
+  split. { unfold IndexE1. cbn [w_hub w_reward w_bsei w_stsei w_env].
+           split; [apply N.leb_le; vm_compute; reflexivity|].
+           split; [apply N.leb_le; vm_compute; reflexivity|].
+           split; [apply N.leb_le; vm_compute; reflexivity|].
+           split; [apply N.leb_le; vm_compute; reflexivity|].
+           split; [|split; apply N.leb_le; vm_compute; reflexivity].
+           intros d.
+           eapply N.le_trans.
+           - apply N.add_le_mono.
+             + apply (bal_bound_b _ 10000000). vm_compute. reflexivity.
+             + apply (pend_total_bound_b _ 50000). vm_compute. reflexivity.
+           - apply N.leb_le. vm_compute. reflexivity. }
+  split. { unfold RewardSolvent. cbn [w_reward]. apply N.leb_le. vm_compute. reflexivity. }
+  split. { unfold HubReady. cbn [w_hub]. split; [reflexivity|]. split; [apply N.ltb_lt; vm_compute; reflexivity|].
+           left. reflexivity. }
+  do 6 (split; [reflexivity|]).
+  split. { vm_compute. reflexivity. }
+  split. { split; [apply N.ltb_lt | apply N.leb_le]; vm_compute; reflexivity. }
+  split. { split; [apply N.ltb_lt | apply N.leb_le]; vm_compute; reflexivity. }
+  split.
+  { intros [[_ [H|H]]|[_ H]]; vm_compute in H; discriminate. }
+  apply N.ltb_lt. vm_compute. reflexivity.
+Qed.
